@@ -122,7 +122,7 @@ func (e *Engine) noteGlobSort(k string, s Sort) { e.globSorts[k] = s }
 
 // noteElemSort records the sort of the element-array key of a slice element type.
 func (e *Engine) noteElemSort(et types.Type) {
-	if ls, ok := leafSort(et); ok && (ls == SInt || ls == SBool) && structOf(et) == nil {
+	if ls, ok := leafSort(et); ok && (ls == SInt || ls == SBool || ls == SArrII || ls == SArrIB) && structOf(et) == nil {
 		e.globSorts[elemKey(et)] = arrOf(arrOf(ls))
 	}
 }
